@@ -100,6 +100,7 @@ class E:
     twin_of: Optional[str] = None
     module: str = ""
     notes: Dict[str, object] = field(default_factory=dict)
+    only_std: bool = False          # compiled in the std configuration only (large exhaustive families)
 
     def render(self, renamed_attr: bool = True) -> str:
         out = ["#![allow(dead_code, unused_imports, deprecated, non_camel_case_types, non_snake_case, unused_variables, unreachable_patterns, unused_parens)]",
@@ -791,7 +792,11 @@ def generate(tier: str, seed: int) -> List[E]:
     es += family_try_as(1)
     if tier == "thorough":
         ids = all_short_identifiers(5)
-        es += family_casing(rng, 5000, ids, [s for s in S.DOCUMENTED_STYLES], per_enum=24)
+        big = family_casing(rng, 5000, ids, [s for s in S.DOCUMENTED_STYLES], per_enum=24)
+        for e in big:
+            e.derives = ["VariantNames", "EnumString", "EnumIs"]
+            e.only_std = True
+        es += big
     return es
 
 
@@ -829,7 +834,7 @@ def write_if_changed(path: str, content: str):
 def crate_for(e: E, cfg: str, idx: int) -> Optional[str]:
     if cfg == "std":
         return "c_std_%02d" % (idx % N_SHARDS)
-    if e.std_only or e.phf:
+    if e.std_only or e.phf or e.only_std:
         return None
     if cfg == "nostd":
         return "c_nostd_%d" % (idx % 4)
